@@ -37,7 +37,8 @@ META = {"engine": "D loopback + doubles", "technique": "byte and packet conserva
         "level_text": "generated schedules over real loopback sockets plus enumerated partial-send scripts on doubles",
         "level_note": "loopback TCP delivers what was accepted; only the executions produced are covered"}
 
-HOST = "127.0.0.1"
+from vf import net
+HOST = net.host()       # a loopback address of this process alone (see vf/net.py)
 
 
 def body(pid, n):
